@@ -7,7 +7,7 @@ REQUIRED_BRANCHES = [
     # model branches (driver) that a run must reach
     "intro-segment", "intro-persist", "intro-merge", "load-segment", "load-snapshot", "persister-grab",
     "persister-release", "reader-open", "reader-close", "disk-reader-open", "requery-stale", "requery-after-close",
-    "closer-ran", "unroot", "refs", "complete-run", "requery-root", "persist-error",
+    "closer-ran", "unroot", "refs", "complete-run", "requery-root", "persist-error", "stress",
     # input distribution keys (harness)
     "q:disk-reader", "dir:removed", "dir:remove-blocked-or-failed",
 ]
